@@ -27,4 +27,18 @@ CHECKS = {
         technique='static lock-depth typestate dataflow over per-function CFGs with interprocedural summaries (clang JSON AST)',
         design_ref='3-A, 4-C14',
     ),
+    'C13': dict(
+        category='other',
+        text='Decides the lock-discipline clause of the property, not linearizability: for every insert/put, get, remove/pop, '
+             'clear and toarray/tostring operation of the tree table, hash table, list table, list/queue/stack and vector, '
+             'every access to mutable shared state (container fields, node fields, element buffer/slot array) executes at '
+             'lock depth >= 1 on all CFG paths, and the operation enters its outermost critical section at most once. '
+             'This is a necessary condition (an unlocked access is a data race / lost update under some schedule) and is '
+             'exactly the failure mechanism the property cites.',
+        note='Trusts the mutex macros; fields exempt from guarding are derived as written-only-by-constructor; the user cursor '
+             'object of getnext/removeobj and nodes under construction (fresh allocation, flow-insensitive) are private; '
+             'qtreetbl_getnext is documented caller-locked; one named exemption (qlisttbl_removeobj frees an unlinked node).',
+        technique='static guarded-by / lockset analysis on top of the lock-depth dataflow (clang JSON AST, CFG, call-graph summaries)',
+        design_ref='3-B, 4-C13',
+    ),
 }
